@@ -847,4 +847,119 @@ def Tensor.get? : Tensor → List Nat → Option Rat
   | .array l, i :: is => match l[i]? with | some t => t.get? is | none => none
   | _, _ => none
 
+/-! ### where the dumped text goes and where the loaded text comes from -/
+
+/-- the ways of naming the target of `System.dump(style, f=…)`. -/
+inductive Sink where
+  /-- `f` not given: the content is returned -/
+  | ret
+  /-- a `str` file name -/
+  | path (p : String)
+  /-- a `pathlib.Path` -/
+  | pathObj (p : String)
+  /-- any other `os.PathLike` -/
+  | pathLike (p : String)
+  /-- `open(p, 'w')`: a text stream on a file that was emptied when it was opened -/
+  | textFile (p : String)
+  /-- an `io.StringIO` (handle number) standing at its end -/
+  | stringIO (h : Nat)
+  /-- `open(p, 'wb')`: a binary stream -/
+  | binFile (p : String)
+deriving DecidableEq, Repr
+
+/-- files by name, in-memory text streams by handle number. -/
+structure World where
+  files : List (String × List Char)
+  bufs : List (Nat × List Char)
+deriving DecidableEq, Repr
+
+def World.file? (w : World) (p : String) : Option (List Char) :=
+  match w.files.find? (fun e => e.1 == p) with
+  | some e => some e.2
+  | none => none
+
+def World.setFile (w : World) (p : String) (t : List Char) : World :=
+  { w with files := (p, t) :: w.files.filter (fun e => !(e.1 == p)) }
+
+def World.buf (w : World) (h : Nat) : List Char :=
+  match w.bufs.find? (fun e => e.1 == h) with
+  | some e => e.2
+  | none => []
+
+def World.setBuf (w : World) (h : Nat) (t : List Char) : World :=
+  { w with bufs := (h, t) :: w.bufs.filter (fun e => !(e.1 == h)) }
+
+/-- the last step of all four writers (`atomman/dump/{atom_data,atom_dump,poscar}/dump.py`,
+    `atomman/dump/table/df_to_table.py`): `if hasattr(f, 'write'): f.write(content)` /
+    `elif f is not None: open(f, 'w').write(content)` / `else: return content`.
+    -> the world afterwards and the returned content (`none`: nothing returned). -/
+def dumpTo (w : World) (k : Sink) (content : List Char) : Res (World × Option (List Char)) :=
+  match k with
+  | .ret => pure (w, some content)
+  | .path p => pure (w.setFile p content, none)
+  | .pathObj p => pure (w.setFile p content, none)
+  | .pathLike p => pure (w.setFile p content, none)
+  | .textFile p => pure (w.setFile p content, none)
+  | .stringIO h => pure (w.setBuf h (w.buf h ++ content), none)
+  | .binFile _ => throw "type"
+
+/-- the ways of naming the source of `load(style, …)` (`potentials.tools.uber_open_rmode`). -/
+inductive Source where
+  /-- a `str`: the name of an existing file, else the content itself -/
+  | str (s : List Char)
+  /-- a `pathlib.Path` -/
+  | pathObj (p : String)
+  /-- `bytes` content -/
+  | bytes (b : List Char)
+  /-- `open(p, 'rb')` -/
+  | binFile (p : String)
+  /-- an `io.BytesIO` of the text -/
+  | bytesIO (t : List Char)
+  /-- a text stream: refused (ValueError) -/
+  | textFile (p : String)
+  /-- anything else, e.g. an `os.PathLike` that is not a `pathlib.Path`: refused (TypeError) -/
+  | other
+deriving DecidableEq, Repr
+
+def sourceText (w : World) : Source → Res (List Char)
+  | .str s => match w.file? (String.ofList s) with
+    | some t => pure t
+    | none => pure s
+  | .pathObj p => match w.file? p with
+    | some t => pure t
+    | none => throw "notfound"
+  | .bytes b => pure b
+  | .binFile p => match w.file? p with
+    | some t => pure t
+    | none => throw "notfound"
+  | .bytesIO t => pure t
+  | .textFile _ => throw "value"
+  | .other => throw "type"
+
+/-- `load('atom_data')` and `load('atom_dump')` first replace any stream by what its `.read()` gives
+    (`if hasattr(data, 'read'): data = data.read()`): the `bytes` of a binary stream, the `str` of a text stream —
+    which is then a source like any other `str`. -/
+def sourceTextRead (w : World) : Source → Res (List Char)
+  | .textFile p => match w.file? p with
+    | some t => sourceText w (.str t)
+    | none => throw "notfound"
+  | .binFile p => match w.file? p with
+    | some t => sourceText w (.bytes t)
+    | none => throw "notfound"
+  | .bytesIO t => sourceText w (.bytes t)
+  | s => sourceText w s
+
+/-- the file a sink names (none for the returned string and in-memory streams). -/
+def Sink.file? : Sink → Option String
+  | .path p => some p
+  | .pathObj p => some p
+  | .pathLike p => some p
+  | .textFile p => some p
+  | .binFile p => some p
+  | _ => none
+
+/-- `load(style, source)`: the loader applied to the text the source gives. -/
+def loadVia {α : Type} (loader : List Char → Res α) (w : World) (src : Source) : Res α :=
+  (sourceText w src).bind loader
+
 end Atomman.C08
